@@ -197,6 +197,6 @@ Example ex_wf_binding : wf_binding ex_spec (s "names")
 Proof.
   eexists. exists TStr. split; [reflexivity|]. split; [reflexivity|]. cbn. split; [reflexivity|].
   eexists. split; [reflexivity|].
-  change [VStr (s "x"); VStr (s "y")] with (([] ++ [VStr (s "x")]) ++ [VStr (s "y")]).
-  repeat constructor.
+  apply (pyd_snoc [VStr (s "x")] (VStr (s "y"))); [|reflexivity].
+  apply (pyd_snoc [] (VStr (s "x"))); [constructor|reflexivity].
 Qed.
